@@ -84,7 +84,17 @@ def expand(case):
             ops.append(op)
     eg = EditGen(g, allow_del_base=True)
     ops.append({"op": "evalall"})
-    for _ in range(case["nedits"]):
+    del_base_at = rnd.randrange(case["nedits"]) if case.get("base") and rnd.random() < 0.4 else -1
+    for ei in range(case["nedits"]):
+        if ei == del_base_at and "PB" in g.rm.children and g.rm.children["PB"].formula is not None \
+                and g.rm.children["PB"].formula.base is not None and not g.rm.children["PB"].formula.base.deleted:
+            # the space named as base by PB's formula is deleted while instances of PB are alive
+            e = {"op": "del_space", "path": g.rm.children["PB"].formula.base.path()}
+            if not eg._would_dangle(e):
+                g.emit(e)
+                ops.append(dict(e, tag="del_space"))
+                ops.append({"op": "evalall"})
+                continue
         e = None
         for _try in range(8):
             # edits of space formulas inside parametrised trees are rare among the general kinds: boosted
